@@ -6,7 +6,8 @@
 //
 // case args: incap=<n> peercap=<n> memmax=<n>
 // ops:  adv <ns>
-//       local <peerq> <inq> <heap>                       set the three numerator gauges
+//       local <peerq> <inq> <heap>                       set the three numerator gauges (may exceed the capacities, may be negative)
+//       caps <peercap> <incap> <memmax>                  set the three denominator constants (may be 0)
 //       peer <id> <level>                                deliver the message peer p<id> publishes
 //       junk <k>                                         deliver malformed message number k
 //       reload <mode> <act> <deact> <minNs>              MockConfig + UpdateFromConfig
@@ -107,6 +108,28 @@ func (g *gen) local() {
 	q := l*l + l // sqrt(q/10000)*100 lands inside [l, l+1)
 	if l >= 100 {
 		q = 10000 + g.r.Intn(3)*5000
+	}
+	if g.r.Chance(14) { // readings outside [0, capacity]: above by 1 %, 50 %, 10x; negative; zero capacity
+		over := []int{10100, 15000, 100000, 10000, -5, 0}
+		pick := func(scale int) int { return over[g.r.Intn(len(over))] * scale }
+		switch g.r.Pick(30, 20, 20, 20, 10) {
+		case 0:
+			g.emit("local 0 0 %d", pick(100)) // memory_heap_allocation vs MaxAlloc (1000000)
+		case 1:
+			g.emit("local 0 %d 0", pick(1))
+		case 2:
+			g.emit("local %d 0 0", pick(1))
+		case 3:
+			g.emit("local %d %d %d", pick(1), pick(1), pick(100))
+		case 4:
+			caps := []int{0, 10000, 1000000, -10000}
+			g.emit("caps %d %d %d", caps[g.r.Intn(2)], caps[g.r.Intn(2)], caps[g.r.Pick(40, 0, 50, 10)])
+			g.emit("local %d %d %d", g.r.Intn(20000), g.r.Intn(20000), g.r.Intn(2000000))
+			g.recalc()
+			g.emit("caps 10000 10000 1000000")
+			return
+		}
+		return
 	}
 	switch g.r.Pick(70, 15, 15) {
 	case 0:
@@ -333,6 +356,11 @@ func (r *runner) Do(op []string) (string, bool) {
 		r.met.Gauge(collect.NUMERATOR_PEER_QUEUE, float64(i64(1)))
 		r.met.Gauge(collect.NUMERATOR_INCOMING_QUEUE, float64(i64(2)))
 		r.met.Gauge(collect.NUMERATOR_MEMORY_HEAP_ALLOC, float64(i64(3)))
+		return "", false
+	case "caps":
+		r.met.Store(collect.DENOMINATOR_PEER_CAP, float64(i64(1)))
+		r.met.Store(collect.DENOMINATOR_INCOMING_CAP, float64(i64(2)))
+		r.met.Store(collect.DENOMINATOR_MEMORY_MAX_ALLOC, float64(i64(3)))
 		return "", false
 	case "peer":
 		r.sr.VerifOnMessage(collect.VerifStressMessage(uint(i64(2)), "p"+op[1]))
